@@ -144,6 +144,10 @@ fn eval_confirmed(
 fn crash_outcome(prop: &dyn Prop, case: &Value, m: &str) -> Outcome {
     let mut o = Outcome::new();
     o.evals = 1;
+    if prop.crash_is_resource_exhaustion(case) {
+        o.discard("worker-died-on-blown-up-grammar");
+        return o;
+    }
     o.verdict = Verdict::violation("crash", prop.abnormal_signature(case, "crash"), m.to_string());
     o
 }
